@@ -126,14 +126,18 @@ def run(ctx):
         "layouts": summ.get("cases", 0),
         "distinct_nontrivial": summ.get("nontrivial", 0),
         "rule": "layouts: (a) every single-signal placement (start 0..63, size 1..64-start, both byte orders; SetByteOrder "
-                "before or after InsertSignal alternately) on an 8-byte message x {64 one-hot payloads, all-ones, 8 (thorough "
-                "32) seeded random payloads}; (b) seeded random histories on messages of 1..16 bytes: up to 12 standard / enum / "
-                "multiplexer signals appended or inserted, then up to 8 edits out of SetType, SetEnum, enum AddValue / RemoveValue / "
-                "SetMinSize / UpdateIndex / RemoveAllValues, SetByteOrder, shifts, compact, remove x {all-ones, 3 one-hot, 6 random, "
-                "1 over-long payload}.  Per layout the view reported by the getters, Filters() and every Decode() are compared with "
-                "the model; evaluations = Decode calls.  Predicates are evaluated on layouts that are well-formed (sorted, disjoint, "
-                "inside the payload: C01's guarantee; the others are counted in the distribution and still compared with the model).  "
-                "non-trivial = distinct layout view with more than one signal or a signal crossing a byte boundary",
+                "before or after InsertSignal alternately; signed/unsigned types) on an 8-byte message x {64 one-hot payloads, "
+                "all-ones, 8 (thorough 32) seeded random payloads}; (b) 4000 (thorough 1000000) seeded random histories on messages "
+                "of 1..16 bytes, generated while executed so that edit arguments sit at the boundaries of the current layout: up "
+                "to 12 standard / enum / multiplexer signals appended or inserted, then up to 8 edits out of SetType (exact fit "
+                "+-1, gap in front), SetEnum, enum AddValue (just above the maximum) / RemoveValue / SetMinSize / UpdateIndex / "
+                "RemoveAllValues, SetByteOrder, shifts, compact, remove, UpdateSizeByte (byte of the last signal's end +-1) x "
+                "{all-ones, 3 one-hot, 6 random, 1 over-long payload}.  Per layout the view reported by the getters, Filters() "
+                "and every Decode() are compared with the model; evaluations = Decode calls.  Predicates on the implementation: "
+                "byte order propagated, signals and masks inside the payload, Decode does not panic, order, RawValue = payload "
+                "bits (big.Int), masks cover, masks disjoint.  Failures caused by a layout that stopped being well-formed are "
+                "classified by the first edit that broke it.  non-trivial = distinct layout view with more than one signal or "
+                "a signal crossing a byte boundary",
         "samples": summ["samples"][:8],
         "distribution": summ["hist"],
         "model_mismatches": mism,
@@ -150,7 +154,7 @@ def run(ctx):
         ],
     })
     ctx.assumptions = [
-        "layout well-formedness (sorted, pairwise disjoint, inside the payload, sizes 1..64) is C01's conclusion and C02's premise",
+        "the theorems take layout well-formedness (sorted, pairwise disjoint, inside the payload, sizes 1..64: C01's conclusion) as premise; the run judges every layout and classifies failures caused by a broken layout by the edit that broke it",
         "Decode on a payload shorter than the message panics (index out of range): outside the property's quantifier, not exercised",
     ]
     if ctx.tier == "thorough":
